@@ -8,7 +8,7 @@ import (
 func init() {
 	props = append(props, prop{
 		ID: "C14", Title: "WebSocket callbacks ordered and exactly-once; concurrent writes stay whole", Level: "exploration",
-		Rule: "case = one server (nbhttp.Engine + websocket.Upgrader, or net/http server handing connections to the Upgrader) on one upgrade path - poller-driven (IOModNonBlocking), blocking with parser (IOModBlocking), blocking with own read loop (net/http + Upgrade -> HandleRead, and UpgradeWithoutHandlingReadForConnFromSTDServer + go HandleRead), transferred to the poller (UpgradeAndTransferConnToPoller from IOModBlocking and from net/http), IOModMixed - x {LT, ET, ONESHOT} x direct / queued (BlockingModAsyncWrite) writes, engine-served paths also over TLS; 1-5 raw clients (by-hand handshake, frames through internal/wsref, masked) each send 4-43 numbered binary messages (0 B - 100 KiB, half of them in 2-4 fragments, pings between fragments, random TCP segmentation) while 2-32 goroutines per connection call WriteMessage concurrently with messages mostly larger than Config.MaxWebsocketFramePayloadSize (512-4096), followed by an end marker written after all writers returned; connections end by client close frame (after the end marker arrived), client TCP close, wsc.Close() from inside/outside a message callback, or Engine.Stop while traffic flows; seeded Gosched/us delays at execute.afterAppend / execute.afterJob / ws.sendq.afterWrite, open callback lasting 0-3 ms, message callbacks with jitter. Monitors (one logical clock, inside-counters per connection): no message callback before the open callback returned; message callbacks never overlap, arrive with strictly consecutive sequence numbers and intact payload; never after / overlapping the close callback; exactly one close callback per connection that ended while the engine ran (a missing one is decided in a final history: no progress, CPU < 2 % over 30 samples / 3 s; for Stop-ended connections only a second one alarms); on the wire: fragments of a data message contiguous (only control frames in between), every message intact, of this connection, at most once, per-writer order; when the end marker arrived, every message whose WriteMessage returned nil arrived; after the client's close frame all its messages were delivered before the close callback and the server closes. evaluations = cases; a case is non-trivial only if it raised nothing, >= 1 concurrently written message arrived in >= 2 frames and >= 1 connection had >= 2 message callbacks in order; distinct by case index The ping handler runs under the same inside-counter as the message callbacks and is checked for wire order (a ping sent after message k was complete is handled after callback k).. Phase dialer: connections made by nbio itself (websocket.Dialer on a client engine, LT/ET/ONESHOT) to a by-hand server that sends its first messages in the same write as the handshake response, more messages later, and ends the connection with a close frame or by closing the socket; on the client no message callback starts before the open callback has returned (and the session it set is visible), message callbacks do not overlap and come in wire order, exactly one close callback follows them",
+		Rule: "case = one server (nbhttp.Engine + websocket.Upgrader, or net/http server handing connections to the Upgrader) on one upgrade path - poller-driven (IOModNonBlocking), blocking with parser (IOModBlocking), blocking with own read loop (net/http + Upgrade -> HandleRead, and UpgradeWithoutHandlingReadForConnFromSTDServer + go HandleRead), transferred to the poller (UpgradeAndTransferConnToPoller from IOModBlocking and from net/http), IOModMixed - x {LT, ET, ONESHOT} x direct / queued (BlockingModAsyncWrite) writes, engine-served paths also over TLS; 1-5 raw clients (by-hand handshake, frames through internal/wsref, masked) each send 4-43 numbered binary messages (0 B - 100 KiB, half of them in 2-4 fragments, pings between fragments, random TCP segmentation) while 2-32 goroutines per connection call WriteMessage concurrently with messages mostly larger than Config.MaxWebsocketFramePayloadSize (512-4096), followed by an end marker written after all writers returned; connections end by client close frame (after the end marker arrived), client TCP close, wsc.Close() from inside/outside a message callback, or Engine.Stop while traffic flows; seeded Gosched/us delays at execute.afterAppend / execute.afterJob / ws.sendq.afterWrite, open callback lasting 0-3 ms, message callbacks with jitter. Monitors (one logical clock, inside-counters per connection): no message callback before the open callback returned; message callbacks never overlap, arrive with strictly consecutive sequence numbers and intact payload; never after / overlapping the close callback; exactly one close callback per connection that ended while the engine ran (a missing one is decided in a final history: no progress, CPU < 2 % over 30 samples / 3 s; for Stop-ended connections only a second one alarms); on the wire: fragments of a data message contiguous (only control frames in between), every message intact, of this connection, at most once, per-writer order; when the end marker arrived, every message whose WriteMessage returned nil arrived; after the client's close frame all its messages were delivered before the close callback and the server closes. evaluations = cases; a case is non-trivial only if it raised nothing, >= 1 concurrently written message arrived in >= 2 frames and >= 1 connection had >= 2 message callbacks in order; distinct by case index The ping handler runs under the same inside-counter as the message callbacks and is checked for wire order (a ping sent after message k was complete is handled after callback k).. Phase dialer: connections made by nbio itself (websocket.Dialer on a client engine, LT/ET/ONESHOT) to a by-hand server that sends its first messages in the same write as the handshake response, more messages later, and ends the connection with a close frame or by closing the socket; on the client no message callback starts before the open callback has returned (and the session it set is visible), message callbacks do not overlap and come in wire order, exactly one close callback follows them. Phase qclose: queued write mode on blocking connections (net/http server + Upgrade, nbhttp IOModBlocking) with BlockingModAsyncCloseDelay = 30 s; the server writes one 6-12 MiB frame / two messages / a fragmented message to a client that starts reading only after Close has returned, or 1-5 tiny messages to a client that reads at once, and calls Close right behind the last WriteMessage; every message whose WriteMessage returned nil must arrive intact before the stream ends; an early end is a violation only when observed less than half the delay after Close was called (the delayed close cannot have fired), otherwise inconclusive",
 		Assumptions: append([]string{
 			"the raw client follows RFC 6455 (waits for the 101 response before it sends frames); internal/wsref is the independent codec",
 			"connections ended by Engine.Stop are outside the quantifier: only a duplicated close callback alarms for them",
@@ -17,6 +17,7 @@ func init() {
 			{Name: "main", Pkg: "./workers/c14", QuickShards: 12, ThorShards: 16, QuickTO: 8 * time.Minute},
 			{Name: "race", Pkg: "./workers/c14", Race: true, ThoroughOnly: true, ThorShards: 12},
 			{Name: "dialer", Pkg: "./workers/c14", QuickShards: 12, ThorShards: 16, QuickTO: 8 * time.Minute},
+			{Name: "qclose", Pkg: "./workers/c14", QuickShards: 8, ThorShards: 12, QuickTO: 8 * time.Minute},
 		},
 		RaceFuncs: regexp.MustCompile(`^nbio/nbhttp/websocket\.\(\*Conn\)\.(writeFrame|WriteMessage|WriteFrame|CloseAndClean)$`),
 	})
